@@ -19,7 +19,9 @@ META = dict(
     technique="dense basis-vector probing of generated operator expression trees against a "
               "reference matrix algebra and a reference capability calculus",
     rule=("case = random expression AST (depth <= 3 quick / <= 5 thorough) over + - @ scalar* neg "
-          ".adjoint .inverse (and adjoint-inverse in one step) on a DomainTuple (1-2 sub-spaces, <= 12 pixels, optional harmonic "
+          ".adjoint .inverse (and adjoint-inverse in one step), plus flattened sums of 3-5 terms "
+          "(scaling / diagonal / block-diagonal / opaque summands, random signs, random nesting "
+          "(A-B)+C, A-(B-C), -(B)+A+C) on a DomainTuple (1-2 sub-spaces, <= 12 pixels, optional harmonic "
           "partner) or a 2-key MultiDomain with its two 1-key sub-domains; leaves: ScalingOperator "
           "(real, complex, 1, 0), DiagonalOperator (real/complex, full/partial spaces, every _trafo), "
           "MatrixProductOperator (plain / flatten / partial spaces), SandwichOperator.make, "
@@ -45,7 +47,8 @@ META = dict(
         "trees whose leaves are all opaque (MatrixProductOperator, FFT, Hartley)",
         "CPU only",
     ],
-    need=["mode_matrix_comparisons", "capability_checks", "unadvertised_mode_refusals",
+    need=["mode_matrix_comparisons", "capability_checks", "multisum_expressions",
+          "flattened_sums_3plus_with_negated_diagonal", "unadvertised_mode_refusals",
           "inverse_mode_comparisons", "simplification_fired_nodes", "multidomain_union_sums",
           "input_unchanged_checks", "target_domain_checks"],
     quick=dict(cases=1400, workers=6, budget_s=90),
@@ -459,8 +462,13 @@ class Gen:
         if depth <= 0 or len(self.nodes) >= self.budget:
             return self.reg(gen_leaf(I, rng, W, X, Y))
         pool = W["pool"]
-        ops = ["sum", "diff", "chain", "chain", "scal", "neg", "adj", "inv", "adjinv"]
+        ops = ["sum", "diff", "chain", "chain", "scal", "neg", "adj", "inv", "adjinv", "multisum",
+               "multisum"]
         o = ops[int(rng.integers(0, len(ops)))]
+        if o == "multisum":
+            if X is Y:
+                return self.multisum(X, depth)
+            o = "chain"
         if o in ("sum", "diff"):
             neg = o == "diff"
             if W["multi"] and X is Y and X is pool[0] and rng.integers(0, 3) > 0:
@@ -535,6 +543,69 @@ class Gen:
                                          scale=np.abs(Mi) * a.amp))
         return self.reg(self.combine(a.op.adjoint, a.M.T, L.cap_adjoint(a.cap), X, Y,
                                      ["adjoint", a.desc], "adj", "OperatorAdapter", (a,), scale=a.S.T))
+
+    def sum_term(self, X, depth):
+        """one summand of a flattened sum: mostly diagonal-like / scaling leaves (the ones the
+        sum simplification merges), sometimes an opaque leaf or a deeper sub-expression"""
+        I, rng, W = self.I, self.rng, self.W
+        u = int(rng.integers(0, 12))
+        if depth > 1 and u == 0 and len(self.nodes) < self.budget:
+            return self.gen(X, X, depth - 2)
+        if W["multi"]:
+            if u < 4:
+                return self.reg(leaf_scaling(I, rng, X))
+            if u < 11:
+                return self.reg(leaf_blockdiag(I, rng, W, X))
+            return self.reg(leaf_null(I, rng, X, X))
+        if u < 6:
+            return self.reg(leaf_diag(I, rng, X))
+        if u < 9:
+            return self.reg(leaf_scaling(I, rng, X))
+        if u < 11:
+            return self.reg(leaf_matrix(I, rng, X))
+        return self.reg(leaf_null(I, rng, X, X))
+
+    def multisum(self, X, depth):
+        """flattened sum of 3-5 endomorphic terms with random signs in a random nesting:
+        (A-B)+C, A-(B-C), -(B)+A+C, ... ; every intermediate sum is registered (and checked)"""
+        rng = self.rng
+        n = int(rng.integers(3, 6))
+        terms = [self.sum_term(X, depth) for _ in range(n)]
+        self.ck.hit("multisum_expressions")
+
+        def build(lo, hi):
+            """returns (node, [(leaf kind, effective sign)] in flattened order)"""
+            if hi - lo == 1:
+                t = terms[lo]
+                sg = [(t.kind, +1)]
+                if rng.integers(0, 6) == 0:    # unary minus on a summand
+                    t = self.reg(self.combine(-t.op, -t.M, t.cap, X, X, ["neg", t.desc], "neg",
+                                              "ChainOperator", (t,), scale=t.S))
+                    sg = [("scaled", +1)]      # -D is a new (scaled) operator, not a flagged summand
+                return t, sg
+            k = int(rng.integers(lo + 1, hi))
+            (a, sa), (b, sb) = build(lo, k), build(k, hi)
+            neg = bool(rng.integers(0, 2))
+            op = (a.op - b.op) if neg else (a.op + b.op)
+            M = a.M - b.M if neg else a.M + b.M
+            node = self.reg(self.combine(op, M, 3 & a.cap & b.cap, X, X,
+                                         ["diff" if neg else "sum", a.desc, b.desc],
+                                         "diff" if neg else "sum", "SumOperator", (a, b),
+                                         scale=a.S + b.S))
+            node.flags.add("multisum")
+            sg = sa + [(kd, -x if neg else x) for kd, x in sb]
+            if rng.integers(0, 8) == 0:        # unary minus on a partial sum
+                node = self.reg(self.combine(-node.op, -node.M, node.cap, X, X, ["neg", node.desc],
+                                             "neg", "ChainOperator", (node,), scale=node.S))
+                sg = [(kd, -x) for kd, x in sg]
+            return node, sg
+        root, sg = build(0, n)
+        dl = [x for kd, x in sg if kd in ("leaf:diag", "leaf:blockdiag")]
+        if len(sg) >= 3 and len(dl) >= 2 and dl[0] < 0:
+            self.ck.hit("flattened_sums_3plus_with_negated_diagonal")
+        if len(sg) >= 3 and len(dl) >= 2:
+            self.ck.hit("flattened_sums_3plus_with_two_diagonals")
+        return root
 
     def combine(self, op, M, cap, X, Y, desc, kind, naive, kids, scale=None):
         n = Node(op, M, cap, X, Y, desc, kind, naive,
@@ -648,7 +719,11 @@ def case(ck, i):
     pool = W["pool"]
     X = pool[0] if rng.integers(0, 2) else pool[int(rng.integers(0, len(pool)))]
     Y = pool[int(rng.integers(0, len(pool)))] if rng.integers(0, 3) == 0 else X
-    root = g.gen(X, Y, depth)
+    if rng.integers(0, 4) == 0:
+        Y = X
+        root = g.multisum(X, depth)
+    else:
+        root = g.gen(X, Y, depth)
     reported = set()
     for node in g.nodes:
         check_node(ck, I, rng, node, reported)
